@@ -63,6 +63,16 @@ pub fn probes<K: Kmer, D: Debug>(g: &DebruijnGraph<K, D>, extra: &[K]) -> Vec<K>
                 out.push(k.extend_right(b));
             }
         }
+        // near misses of the terminal k-mers: one base substituted at the first, middle and last position
+        for k in [f, l] {
+            for pos in [0, K::k() / 2, K::k() - 1] {
+                for d in 1..4u8 {
+                    let mut m = k;
+                    m.set_mut(pos, (k.get(pos) + d) % 4);
+                    out.push(m);
+                }
+            }
+        }
     }
     out.extend_from_slice(extra);
     out
